@@ -17,6 +17,13 @@ compiled to the sequence of synchronisation-relevant instructions the code execu
 * `WithRealm/WithExtendedRealm/Batched/Flush`: `closed.Load()` only (ghost access `nop`); a new view / batch object has
   its own zero-valued lock: every `LockId` starts `RW.free` and stays free while nobody uses it
 * batch `Set/Delete/Cancel`: batch `Lock`; private maps; batch `Unlock` (no flag load)
+* the **flushkv wrapper** (`kvstore/flushkv`): a mutator `Set/Delete/DeletePrefix/Clear` / batch `Commit` is the wrapped
+  mutator — when that fails the call returns its error at once — followed by `flushAfterMutation`, i.e. the wrapped store's
+  `Flush()` = one more `closed.Load()` whose ErrStoreClosed is *dropped* (fix b5d5462): instruction `load`.  Everything else
+  of flushkv forwards (the wrapped call itself).
+* the **debug wrapper** (`kvstore/debug`): the access callback runs *before* the wrapped call, outside every lock, and is
+  user code: modelled as a call of its own of the same goroutine (`callback`, no instruction) — followed in the script by
+  the wrapped call; what the callback itself does with the store is further calls of that goroutine.
 
 Every access to the shared map is ONE atomic effect (`DOp.apply`) of the C04 specification's
 ordered map.  `sync.RWMutex` has writer preference: `Lock` first announces itself (`pending`), then
@@ -97,6 +104,9 @@ inductive Instr
   | runlock (l : LockId)
   | eff (a : DOp)       -- one access to the shared map
   | swapClosed          -- `closed.Swap(true)`
+  /-- `closed.Load()` whose outcome is dropped: the `Flush()` that flushkv issues after a mutation that succeeded
+  (`flushAfterMutation` swallows ErrStoreClosed; mapdb's `Flush` can fail in no other way) -/
+  | load
 deriving DecidableEq, Repr
 
 /-- A call of a goroutine: `v` names the view object (its lock), `r` is the view's realm, `b` the
@@ -116,6 +126,14 @@ inductive COp
   | batched                   -- `Batched`: flag load; the result is a new batch object (own, free mutex)
   | flush                     -- `Flush`: flag load
   | batchOp (b : Nat)         -- batch `Set` / `Delete` / `Cancel`: the batch's own maps under the batch mutex, nothing shared
+  /- the mutators of the flushkv wrapper: the wrapped mutator, then (only if it did not fail) a dropped flag load -/
+  | fset (v : Nat) (r k x : Bytes)
+  | fdel (v : Nat) (r k : Bytes)
+  | fdelp (v : Nat) (r p : Bytes)
+  | fclear (v : Nat) (r : Bytes)
+  | fcommit (b v : Nat) (r : Bytes) (ws : List Write)
+  /-- the access callback of the debug wrapper: user code that runs before the wrapped call, outside every lock -/
+  | callback
 deriving DecidableEq, Repr
 
 def writeOp (r : Bytes) (w : Write) : DOp :=
@@ -130,6 +148,11 @@ def writeCode (v : Nat) (a : DOp) : List Instr :=
   [.check, .lock (.view v), .lock .map, .eff a, .unlock .map, .unlock (.view v)]
 
 def iterCode (a : DOp) : List Instr := [.check, .rlock .map, .eff a, .runlock .map]
+
+/-- A mutator of the flushkv wrapper: `writeCode`, then `flushAfterMutation` (a flag load whose outcome is dropped).  When
+the wrapped mutator fails on its own flag load the call ends there (`check` drops the rest of the code): no `Flush()`. -/
+def fwriteCode (v : Nat) (a : DOp) : List Instr :=
+  [.check, .lock (.view v), .lock .map, .eff a, .unlock .map, .unlock (.view v), .load]
 
 /-- A call that only loads the closed flag (`WithRealm`, `WithExtendedRealm`, `Batched`, `Flush`): its linearisation point
 on success is the ghost access `nop`, which touches nothing and needs no lock. -/
@@ -158,6 +181,13 @@ def compile : COp → List Instr
   | .batched => flagCode
   | .flush => flagCode
   | .batchOp b => batchCode b
+  | .fset v r k x => fwriteCode v (.set (r ++ k) x)
+  | .fdel v r k => fwriteCode v (.del (r ++ k))
+  | .fdelp v r p => fwriteCode v (.delp (r ++ p))
+  | .fclear v r => fwriteCode v (.delp r)
+  | .fcommit b v r ws =>
+    .check :: .lock (.batch b) :: .lock (.view v) :: (commitWrites r ws ++ [.unlock (.batch b), .unlock (.view v), .load])
+  | .callback => []
 
 /-! ## ghost events -/
 
@@ -244,6 +274,7 @@ def step (s : Shared) (t : Thread) : List (Shared × Thread) :=
       [(({ s with m := r.1 } : Shared).log (.lin t.tid t.idx (.eff a) r.2), { t with code := rest, res := some r.2 })]
     | .swapClosed :: rest =>
       [(({ s with closed := true } : Shared).log (.lin t.tid t.idx .close .ok), { t with code := rest, res := some .ok })]
+    | .load :: rest => [(s, { t with code := rest })]   -- the flag is read, the outcome dropped: nothing depends on it
 
 def sys : Sys Shared Thread := { step := step }
 
